@@ -64,7 +64,8 @@ def plan(tier, seed):
     fs = lambda n16, rep32: ([{'k': 'failsweep16', 'slice': i, 'of': 64, 'ctx': c} for c in range(n16) for i in range(64)] +
                              [{'k': 'failsweep32', 'slice': i, 'rep': rep32} for i in range(0, 384, 8)] +
                              [{'k': 'failsweepC', 'slice': i, 'of': 8} for i in range(8)] +          # the example words of every Thumb opcode class (sim/classwords.json)
-                             [{'k': 'trapsweep', 'rep': i} for i in range(max(8, n16 * 8))])        # Hyp traps taken from inside IT blocks
+                             [{'k': 'trapsweep', 'rep': i} for i in range(max(8, n16 * 8))] +       # Hyp traps taken from inside IT blocks
+                             [{'k': 'hostret', 'pair': i, 'rep': r_} for r_ in range(2 * n16) for i in range(len(IT.legal_pairs()))])   # SVC serviced by the host (API-level return)
     if tier == 'quick':
         return [{'c': i, 'rep': 0} for i in range(len(_CELLS))] + [{'c': i, 'rep': 1} for i in range(len(_CELLS))] + fs(1, 48)
     items = fs(6, 512)
@@ -181,6 +182,67 @@ def gen_failsweep(item, rng):
         force['edge_regs'] = rng.randrange(1, 8)            # operands at the edges of the range, zero among them (a divisor)
     core = {'config': cfg, 'devices': devices, 'regs': regs, 'words': words, 'force': force, 'no_poke': []}
     return {'scenario': 'failsweep', 'cores': [core], 'events': [], 'max_ticks': len(words) + 2, 'stop_at_done': False, 'cond': cond, 'nzcv': nzcv, 'mask': mask}
+
+
+def gen_hostret(item, rng):
+    """An IT block one of whose slots is an SVC that the HOST services: after the Supervisor Call entry the integrator does what its handler would do
+    and returns through the API - Registers.cpsr_write_by_instr(SPSR, 0b1111, True) and branch_to(LR) - between two steps.  The rest of the block must
+    run under the IT state the SPSR carried."""
+    f, mask = IT.legal_pairs()[item['pair']]
+    n = IT.block_len(mask)
+    cfg = {'arch_version': 7, 'have_security_ext': bool(rng.getrandbits(1)), 'have_virt_ext': False, 'have_lpae': False,
+           'memory_system_architecture': 'PMSA', 'number_of_mpu_regions': 12}
+    seq = [x >> 4 for x in IT.sequence(f, mask)[:-1]]          # the condition of each slot
+    nzcv = rng.getrandbits(4)
+    passing = [i for i, c in enumerate(seq) if IT.cond_passed(c, nzcv)]
+    if not passing:
+        nzcv = next(v for v in range(16) if IT.cond_passed(seq[0], v))
+        passing = [i for i, c in enumerate(seq) if IT.cond_passed(c, nzcv)]
+    j = rng.choice(passing)
+    cpsr = (G.random_cpsr(rng, cfg, mode=rng.choice(['usr', 'sys']), thumb=1, e=0) & 0x0FFFFFFF & ~0x0600FC00) | nzcv << 28
+    regs = {'cpsr': cpsr, 'pc': G.CODE + 4 * rng.randrange(0, 64), 'sys': {'sctlr': G.sctlr_value(m=0, a=0, u=1, te=rng.getrandbits(1), v=0), 'vbar': 0},
+            'R': G.random_regfile(rng, cfg), 'spsr': G.random_spsrs(rng, cfg, valid=True)}
+    body = [(T.mov_imm(rng.randrange(0, 6), rng.getrandbits(8)) if i != j else T.svc(rng.getrandbits(8))) << 16 | T.NOP for i in range(n)]
+    words = [T.it(f, mask) << 16 | T.NOP] + body + [T.mov_imm(4, 0x77) << 16 | T.NOP, T.mov_imm(5, 0x55) << 16 | T.NOP]
+    core = {'config': cfg, 'devices': G.std_devices(), 'regs': regs, 'words': words, 'force': None, 'no_poke': []}
+    return {'scenario': 'hostret', 'cores': [core], 'events': [], 'max_ticks': len(words) + 2, 'stop_at_done': False, 'f': f, 'mask': mask, 'nzcv': nzcv, 'svc_slot': j}
+
+
+def run_hostret(case):
+    from sim.stream import StreamBoard
+    b = StreamBoard(case, [])
+    mon = EntryMonitor(b, 0, report=True, oracle='it.entry_model')
+    b.observers = [mon]
+    arm = b.cores[0].arm
+    want = 0
+    t = 0
+    while True:
+        r = arm.registers
+        n0 = len(mon.taken)
+        if not b.advance():
+            break
+        r = arm.registers
+        it = r.cpsr.it
+        if t == 0:
+            want = IT.it_after_IT(case['f'], case['mask'])
+        elif len(mon.taken) > n0:
+            # the Supervisor Call was taken: the host services it and returns through the API
+            if [k for _, k in mon.taken[n0:]] != ['svc'] or it != 0:
+                b.violate('it.entry_model', 'svc', 'itstate_not_cleared' if it else 'wrong_kind', 'entries %s, ITSTATE %#x in the handler' % (mon.taken[n0:], it))
+                break
+            r.cpsr_write_by_instr(r.get_spsr(), 0b1111, True)
+            r.branch_to(r.get_rmode(14, 0x13))
+            b.count('fault.host-serviced-return')
+            want = IT.it_advance(want)
+            it = r.cpsr.it
+        else:
+            want = IT.it_advance(want)
+        if it != want:
+            b.violate('it.model', 'hostret', 'itstate', 'tick %d of IT %x,%x (SVC in slot %d, NZCV %x): ITSTATE %#x, model %#x' % (t, case['f'], case['mask'], case['svc_slot'], case['nzcv'], it, want))
+            break
+        t += 1
+    b.cover.add('hostret|%x|%x|%d' % (case['f'], case['mask'], case['svc_slot']))
+    return {'violations': b.violations, 'cover': b.cover, 'stats': b.stats, 'ticks': b.tick, 'digest': b.digest(), 'interesting': bool(b.violations)}
 
 
 def gen_trapsweep(item, rng):
@@ -324,6 +386,8 @@ def gen(item, rng, tier):
         return gen_failsweep(item, rng)
     if item.get('k') == 'trapsweep':
         return gen_trapsweep(item, rng)
+    if item.get('k') == 'hostret':
+        return gen_hostret(item, rng)
     if _CELLS is None:
         _CELLS = cells()
     f, mask, nzcv, kind = _CELLS[item['c']]
@@ -394,7 +458,7 @@ def gen(item, rng, tier):
             slots.append({'t': 'any', 'w': rand_dp32(rng), 'name': 'dp32'})
             dirty = True              # r0-r5 may hold anything from here on: later 'register must change' expectations are off
         elif t == 'multi':
-            kindm = rng.choice(['stm', 'ldm', 'ldrd', 'strd', 'nop', 'nopw', 'msr_x', 'msr_x', 'hi16', 'hi16', 'adr', 'ldrex', 'misc32', 'wfe'] +
+            kindm = rng.choice(['stm', 'ldm', 'ldrd', 'strd', 'nop', 'nopw', 'msr_x', 'msr_x', 'hi16', 'hi16', 'adr', 'ldrex', 'misc32', 'wfe', 'msr_g'] +
                                ([] if sp_loaded else ['push', 'pop', 'push', 'pop', 'popw', 'spadj']))
             if kindm == 'msr_x' and e_main:
                 kindm = 'nop'                         # (MSR CPSR_x from a pointer register would clear the E bit the program runs with)
@@ -437,6 +501,9 @@ def gen(item, rng, tier):
             elif kindm in ('ldrd', 'strd'):
                 ra, rb = rng.sample(range(5), 2)
                 w = T.ldstd(kindm == 'ldrd', ra, rb, 6, rng.randrange(0, 16))
+            elif kindm == 'msr_g':
+                # MSR APSR_g, Rn: writes the GE field and nothing else, whatever the other bits of Rn hold (the registers are random words)
+                w = 0xF3808400 | rng.randrange(0, 6) << 16
             elif kindm == 'wfe':
                 # WFE with the Event Register clear: the processor really waits in the middle of the block (the board lets it sleep) until an event
                 # - the SEV scheduled behind the program, or an interrupt - wakes it; the instruction occupies one slot, however long the wait
@@ -767,6 +834,8 @@ def run(case):
         return run_failsweep(case)
     if case['scenario'] == 'trapsweep':
         return run_trapsweep(case)
+    if case['scenario'] == 'hostret':
+        return run_hostret(case)
     p0 = M.env.print_count[0]
     meta = case['meta']
     bB, oB = run_one(case, False)
@@ -803,6 +872,9 @@ def run(case):
 
 
 def sample(case, res):
+    if case['scenario'] == 'hostret':
+        return {'scenario': 'hostret', 'firstcond': case['f'], 'mask': case['mask'], 'nzcv': case['nzcv'], 'svc_slot': case['svc_slot'],
+                'words': ['%08x' % w for w in case['cores'][0]['words'][:8]], 'violations': res['violations'][:2]}
     if case['scenario'] == 'trapsweep':
         return {'scenario': 'trapsweep', 'nzcv': case['nzcv'], 'words': ['%08x' % w for w in case['cores'][0]['words'][:8]], 'violations': res['violations'][:2]}
     if case['scenario'] == 'failsweep':
@@ -815,6 +887,11 @@ def sample(case, res):
 
 
 def shrink(case):
+    if case['scenario'] == 'hostret':
+        core = case['cores'][0]
+        if len(core['regs'].get('R') or {}) > 0:
+            yield dict(case, cores=[dict(core, regs=dict(core['regs'], R={}))])
+        return
     if case['scenario'] == 'trapsweep':
         # keep only the violating tick: its word and the regime installed before it
         res = run(case)
